@@ -457,6 +457,12 @@ func (w *World) apply(focus waddrmgr.KeyScope, op Op) *Result {
 		if commit() {
 			w.Synced = bs
 		}
+	case "neuter_root":
+		// drops the encrypted master HD private key (the wallet can no longer create scopes)
+		res.Err = tx(func(ns walletdb.ReadWriteBucket) error { return w.Mgr.NeuterRootKey(ns) })
+		if commit() {
+			w.Neutered = true
+		}
 	case "set_synced_gap":
 		// a stamp whose predecessor is not remembered, with the birthday block set (in the
 		// same transaction): PutSyncedTo refuses it, the closure returns the error, the
@@ -476,7 +482,7 @@ func (w *World) apply(focus waddrmgr.KeyScope, op Op) *Result {
 			res.Skipped = true
 			return res
 		}
-		if w.Locked || w.Watching {
+		if w.Locked || w.Watching || w.Neutered {
 			res.Expect = "fail"
 		} else {
 			res.Expect = "ok"
